@@ -4,6 +4,7 @@ import (
 	"bytes"
 	"fmt"
 	"net"
+	"time"
 
 	"github.com/refraction-networking/conjure/pkg/transports"
 	pb "github.com/refraction-networking/conjure/proto"
@@ -139,8 +140,11 @@ func (Transport) WrapConnection(data *bytes.Buffer, c net.Conn, phantom net.IP, 
 
 		mc := transports.PrependToConn(c, data)
 		wrapped, err := factory.WrapConn(mc)
+		if err != nil {
+			return r, wrapped, err
+		}
 
-		return r, wrapped, err
+		return r, deadlineConn{Conn: wrapped, underlying: mc}, nil
 	}
 
 	// If we read more than min handshake len, but less than max and didn't find
@@ -154,6 +158,20 @@ func (Transport) WrapConnection(data *bytes.Buffer, c net.Conn, phantom net.IP, 
 	// for the given phantom.
 	return nil, nil, transports.ErrNotTransport
 }
+
+// deadlineConn gives the wrapped obfs4 connection working deadlines. The obfs4 library's connection
+// type answers SetDeadline and SetWriteDeadline with ENOTSUP, but the station's proxy refuses to
+// relay over a connection on which it cannot arm its stall timeouts, so without this no obfs4
+// tunnel would carry any data. All reads and writes of the obfs4 connection end up on the
+// underlying connection, so its deadlines are the ones that matter.
+type deadlineConn struct {
+	net.Conn
+	underlying net.Conn
+}
+
+func (c deadlineConn) SetDeadline(t time.Time) error      { return c.underlying.SetDeadline(t) }
+func (c deadlineConn) SetReadDeadline(t time.Time) error  { return c.underlying.SetReadDeadline(t) }
+func (c deadlineConn) SetWriteDeadline(t time.Time) error { return c.underlying.SetWriteDeadline(t) }
 
 // This function makes the assumption that any identifier with length 52 is an obfs4 registration.
 // This may not be strictly true, but any other identifier will simply fail to form a connection and
